@@ -23,6 +23,28 @@ theorem subRoot_ext {ls ls' : List H} : ∀ (h s : Nat),
     have hp := pow_succ2 h
     rw [ih s (fun q h1 h2 => hq q h1 (by omega)), ih (s + 2 ^ h) (fun q h1 h2 => hq q (by omega) (by omega))]
 
+theorem halvingRoot_take (h : Nat) : ∀ (l : List H), halvingRoot h (l.take (2 ^ h)) = halvingRoot h l := by
+  induction h with
+  | zero => intro l; cases l <;> simp [halvingRoot, List.take]
+  | succ h ih =>
+    intro l
+    have hp := pow_succ2 h
+    simp only [halvingRoot]
+    rw [List.take_take, List.drop_take, hp]
+    have e1 : min (2 ^ h) (2 * 2 ^ h) = 2 ^ h := by omega
+    have e2 : 2 * 2 ^ h - 2 ^ h = 2 ^ h := by omega
+    rw [e1, e2, ih (l.drop (2 ^ h))]
+
+/-- the index-arithmetic `subRoot` is the plain "halve the list" Merkle root of the slice -/
+theorem subRoot_eq_halving (ls : List H) : ∀ (h s : Nat), subRoot ls h s = halvingRoot h (ls.drop s) := by
+  intro h
+  induction h with
+  | zero => intro s; simp [subRoot, halvingRoot, List.getD, List.head?_drop, List.headD_eq_head?_getD]
+  | succ h ih =>
+    intro s
+    simp only [subRoot, halvingRoot]
+    rw [ih s, ih (s + 2 ^ h), halvingRoot_take, List.drop_drop]
+
 theorem subPath_ext {ls ls' : List H} (h p : Nat) : ∀ (Ht S : Nat),
     (∀ q, S ≤ q → q < S + 2 ^ Ht → ls.getD q default = ls'.getD q default) →
     subPath ls h p Ht S = subPath ls' h p Ht S := by
